@@ -221,6 +221,7 @@ class LabGen:
         for i in range(p.n_types):
             kinds.append(r.choices(["object", "union", "alias", "enum"], [5, 2, 3, 2])[0])
         self._planned = [(k, self.fresh_type_name(), r.choice(p.packages)) for k in kinds]
+        self._forced_alias = {}
         for i, (kind, name, pkg) in enumerate(self._planned):
             d = TDef(kind, name, pkg)
             if kind == "enum":
@@ -242,8 +243,10 @@ class LabGen:
                         vals.add(v)
                 d.values = sorted(vals)
                 r.shuffle(d.values)
+            elif kind == "alias" and i in self._forced_alias:
+                d.alias = self._forced_alias[i]
             elif kind == "alias":
-                # aliases are never recursive: only backwards references
+                # aliases are never recursive by themselves: only backwards references
                 t = self.type_expr(i, 1, False) if r.random() < 0.6 else self.scalar()
                 t = self._strip_forward(t, i)
                 d.alias = t
@@ -251,11 +254,19 @@ class LabGen:
                     d.safety = r.choice(SAFETIES)
             elif kind == "object":
                 n = r.choice([0, 1, 2, 3, 4, 6])
-                names = self.member_names(n)
-                for fn in names:
+                names = self.member_names(n + 1)
+                for fn in names[:n]:
                     t = self.type_expr(i)
                     s = r.choice(SAFETIES) if (r.random() < p.safety and self._safety_allowed(t)) else None
                     d.fields.append((fn, t, s))
+                # recursion that passes through an *alias* of optional / list / map of this object:
+                # the alias is defined later and referenced directly by a field
+                later = [j for j in range(i + 1, len(self._planned)) if self._planned[j][0] == "alias" and j not in self._forced_alias]
+                if later and r.random() < 0.12:
+                    j = r.choice(later)
+                    me = ref(name, pkg)
+                    self._forced_alias[j] = r.choice([opt(me), opt(me), lst(me), map_(prim("STRING"), me)])
+                    d.fields.append((names[n], ref(self._planned[j][1], self._planned[j][2]), None))
             else:
                 n = r.choice([0, 1, 2, 3, 4])
                 names = [x for x in self.member_names(n, "camel") if x != "type"]
@@ -407,6 +418,8 @@ class LabGen:
                     tags.append("server-request-context")
                 if has_body and r.random() < 0.15:
                     tags.append("server-limit-request-size: %s" % r.choice(["100b", "2kb", "1 MiB", "5mb"]))
+                if r.random() < 0.5:
+                    r.shuffle(args)      # declaration order is independent of the order in the path template
                 eps.append(endpoint(ename, method, path, args, returns, auth, tags, "do not use" if r.random() < 0.05 else None))
             self.services.append(service(sname, pkg, eps))
 
